@@ -53,19 +53,26 @@ def main():
     import signal
     signal.signal(signal.SIGALRM, on_alarm)
     signal.alarm(limit)
+    # pool tasks get their own (shorter) limit, see common._Guarded
+    os.environ.setdefault("VERIF_TASK_TIMEOUT_S",
+                          "900" if a.tier == "quick" else "7200")
     try:
         mod.run(ctx)
     except common.HarnessError as e:
         traceback.print_exc()
         print("HARNESS-ERROR property=%s %s" % (prop, e))
         return 2
-    except Exception as e:  # noqa
+    except (Exception, common.LibraryHang) as e:  # noqa
         # an exception the check did not foresee.  When it was raised by the
         # library itself (innermost frame under <repo>/src/pydsol) it is a
         # behaviour of the library that the unchanged tree does not show: a
         # violation with the traceback as witness.  Raised anywhere else it is
         # a broken check.
         site = library_site(e)
+        if site is None and isinstance(e, (common.LibraryHang,
+                                           common.LibraryHangError)) and \
+                "outside the library" not in str(e):
+            site = ("hang", str(e)[-120:])
         if site is None:
             raise
         ctx.violation(
